@@ -6,6 +6,7 @@ LEAN = os.path.join(ROOT, 'lean')
 REPO = os.environ.get('PEXPECT_REPO', '/repo')
 PY = '/venv/bin/python'
 ACCEPTED_AXIOMS = {'propext', 'Classical.choice', 'Quot.sound'}
+REQUIRED_TRANSLATORS = {'C13': ('split_table.py',), 'C17': ('pxssh_table.py',), 'C18': ('ansi_table.py',), 'C19': ()}
 FORBIDDEN = re.compile(r'\b(sorry|admit|native_decide|bv_decide|implemented_by)\b|^\s*axiom\s|\bunsafe\s|maxHeartbeats\s+0')
 
 TRUSTED_BASE = [
@@ -124,6 +125,9 @@ def prove(ctx, modules, extra_theorems=()):
         for k, (ok, info) in tr.items():
             if not ok:
                 ctx.notes.append('translator %s refused: %s' % (k, info[-300:]))
+                if k in REQUIRED_TRANSLATORS.get(ctx.prop, ()):
+                    # the generated model is stale: the theorems no longer speak about the current source
+                    ctx.broken.append('translator %s refused the current source (the generated table is stale): %s' % (k, info[-200:]))
         ok, out = lake_build(['PexpectModel.Props.%s' % m for m in modules])
         ctx.cov['lake_build_s'] = round(time.time() - t0, 1)
         names = []
